@@ -82,12 +82,11 @@ CLAIMED = {
             technique="Coq proof (polymorphic re-keying lemma) + extracted-model correspondence + before/after oracle", design="§5 C10"),
  "C04": dict(text="Coq theorems (C04/Props.v) over the generator state machine of pipes.Cache (behind cache(), chunk(), materialize()): for EVERY history of complete reads and reads abandoned after k items on one object, "
                   "every read returns exactly the prefix of the source it consumed and a complete read returns the source (invariant cache ++ rest = source, induction over the slice-pulling loop and over the history); "
-                  "marking the cache complete on a dropped read loses data (refuted example = the seeded change); the logged Shuffle restores its temporary seed on completion and on drop. The Cache model is compared with "
-                  "the real class under counted upstream reads; random pipelines over every public source kind are read under random histories (full, partial, params, pickle, materialize, save/from_save) and compared with a "
-                  "freshly built twin, with deep snapshots of caller data.",
+                  "marking the cache complete on a dropped read loses data (refuted example = the seeded change); logged_shuffle_reads_do_not_interfere - for ANY sequence of reads starting, overlapping, finishing or being dropped on one logged Shuffle every read uses the same altered seed and the filter's seed never changes (the seed-swapping code is refuted). The Cache model is compared with "
+                  "the real class under counted upstream reads; random pipelines over every public source kind are read under random histories (full, partial, suspended-overlapping, sibling reads, params, pickle, materialize, save/from_save) and compared with a "
+                  "freshly built twin, with deep snapshots of caller data and of learner objects passed to logged(); every environment of a multi-environment chain is also read alone, after its siblings, and pickled.",
             note="Trusted: Coq kernel, extraction+driver, harness. Only Cache and the logged Shuffle are modelled as state machines; every other filter is treated as a pure function of its input (justified by C05's independence theorem "
-                 "and checked by the twin oracle, not proved). 'Reading never modifies caller data' is snapshot-checked only (aliasing is not in the model). Densify's lookup table is shared by all environments of an Environments.dense() call "
-                 "(read-order dependent across environments) - not covered by single-environment histories.",
+                 "and checked by the twin oracle, not proved). 'Reading never modifies caller data' is snapshot-checked only (aliasing is not in the model).",
             technique="Coq proof (generator state machine invariant) + extracted-model correspondence + twin-pipeline oracle", design="§5 C04"),
  "C06": dict(text="Coq theorems (C06/Props.v): required_sound - over the definitions regenerated on every run from SequentialCB._required and _results.should_pred, for every mode of the finite domain "
                   "learn x eval x has_score x record flags (vm_compute lifted by forallb_forall) each field the evaluation loop dereferences is demanded by _required (a source edit that lets the loop predict without 'actions' breaks the proof); "
